@@ -162,6 +162,7 @@ def showOut : Out → String
   | .val v => "val\t" ++ showVal v
   | .argsErr => "argsErr"
   | .typeErr => "typeErr"
+  | .err => "err"
   | .panic => "panic"
 
 def goValOf : Val → Option GoVal
@@ -319,6 +320,14 @@ def handle : List String → String
       | some gs => toString (goPanics sig.go gs)
       | none => "false"
     | _, _ => "error\tbad-value"
+  | ["runearg", x] =>
+    match fromHex x with
+    | some b => toString (runeArgOK b)
+    | none => "error\tbad-hex"
+  | ["absbits", n] =>
+    match natOfChars n.toList with
+    | some b => toString (absBits b)
+    | none => "error\tbad-nat"
   | ["f64", i] =>
     match intOfChars i.toList with
     | some i => toString (f64OfInt i) ++ "\t" ++ toString (intExact i)
